@@ -4,7 +4,7 @@
 From Coq Require Import Lia.
 From AV Require Import Base.Util Model.Consumer Proofs.ConsumerBase Proofs.ConsumerFrame Proofs.ConsumerStop Proofs.ConsumerShut
   Proofs.ConsumerInv Proofs.ConsumerRun Proofs.ConsumerFuel Proofs.ConsumerFuelEnoughStop Proofs.ConsumerFuelEnough
-  Proofs.ConsumerFuelEnoughLoop Proofs.ConsumerNotStarted Proofs.ConsumerLimit Proofs.ConsumerShutInvNC.
+  Proofs.ConsumerFuelEnoughLoop Proofs.ConsumerNotStarted Proofs.ConsumerLimit Proofs.ConsumerShutInvNC Proofs.ConsumerShutInvFam Proofs.ConsumerShutInvTop.
 Open Scope Z_scope.
 
 Lemma step_cf fuel s e s' o : step fuel s e = (s', o) -> fuel_ok o = true -> s_cf s' = s_cf s.
@@ -68,4 +68,10 @@ Proof.
 Qed.
 Theorem commit_idle_all : exists fuel0, forall fuel, (fuel0 <= fuel)%nat -> commit_idle_run (tr fuel) = true.
 Proof. apply with_enough. intros fuel H. apply commit_idle_run_holds; [reflexivity | exact H]. Qed.
+Theorem bookkeeping_all : exists fuel0, forall fuel, (fuel0 <= fuel)%nat -> forallb (fun t => sb_ok (t_post t)) (tr fuel) = true.
+Proof. apply with_enough. intros fuel H. apply bookkeeping_run. exact H. Qed.
+Theorem stop_then_restart_all : exists fuel0, forall fuel, (fuel0 <= fuel)%nat ->
+  Forall (fun t => t_ev t = EStop -> s_startd (t_pre t) <> None ->
+            s_shutting (t_post t) = false /\ s_shutd (t_post t) = false /\ restarts_and_delivers fuel (t_post t)) (tr fuel).
+Proof. apply with_enough. intros fuel H. apply stop_then_restart_run. exact H. Qed.
 End NoHyp.
